@@ -4,8 +4,8 @@ package md
 
 // Harness for C19: markdown input is equivalent to its fenced code, positions preserved.
 
-var verifHarnesses = map[string]func(){
-	"VerifC19LoadMd": VerifC19LoadMd,
+func init() {
+	verifHarnesses["VerifC19LoadMd"] = VerifC19LoadMd
 }
 
 // VerifC19LoadMd runs loadMd on an arbitrary rune slice of length L in which no run of four or
